@@ -55,7 +55,7 @@ def build_corpus(tier, first=0):
                         M.log(line.strip())
             return os.path.join(ms_target(tier), "debug", "msbin"), exclude
         text = open(logp, errors="replace").read()
-        bad = sorted(set(re.findall(r"gen/(pg[a-z]+)\.(?:eql|driver)\.rs", text)))
+        bad = sorted(set(re.findall(r"gen/(p[gmn][a-z]+|rt_[a-z_]+)\.(?:eql|driver)\.rs", text)))
         if not bad:
             raise M.HarnessError("batch build failed:\n" + "\n".join(text.splitlines()[-40:]))
         for b in bad:
